@@ -488,7 +488,7 @@ func runC20(res *vh.Result) {
 			}
 		}
 	}
-	nmulti := vh.Tiered(300, 60000)
+	nmulti := vh.Tiered(300, 400000)
 	// versions
 	var versions []string
 	for x := 0; x <= 1; x++ {
